@@ -13,6 +13,9 @@ import r09_shared
 import r10_fwd
 import r11_const
 import r12_subset
+import r13_serde
+import r14_pairkey
+import r15_data
 
 MATRIX = ["baseline", "nofeat", "norayon", "pcsaft", "pcsaft_dft", "epcsaft", "gc_pcsaft", "gc_pcsaft_dft",
           "pets", "pets_dft", "uvtheory", "saftvrmie", "saftvrqmie", "saftvrqmie_dft", "estimator"]
@@ -160,6 +163,18 @@ def r11(ctx, prop):
     return r11_const.run(ctx.F())
 
 
+def r13(ctx, prop):
+    return r13_serde.run(ctx.F())
+
+
+def r14(ctx, prop):
+    return r14_pairkey.run(ctx.F())
+
+
+def r15(ctx, prop):
+    return r15_data.run(ctx.F())
+
+
 def r12(ctx, prop):
     return r12_subset.run(ctx.F())
 
@@ -169,7 +184,8 @@ PROPERTY_RULES = {
     "C09": [r12, r10_wrapper],
     "C02": [r3, r7],
     "C10": [r10_selector, r8, r1_idealgas, r3],
-    "C14": [r10_identifier],
+    "C14": [r14, r13, r10_identifier],
+    "C15": [r15],
     "C20": [r10_transport],
     "C01": [r1_all, r2, r7, r8, r4],
     "C13": [r1_guard, r8],
